@@ -500,6 +500,22 @@ func hpProbeFlags(t *hpType) []hpProbe {
 	_, after = run([][]int{c0, c2}, w)
 	ps = append(ps, hpProbe{name: "inplaceAltersFlag", ops: []string{tyOp, hpSet(c0, c2), w.line()}, on: len(after) == 2 && after[0][t.flag] != 1,
 		detail: "data after an identifier-less remote write that carries a flag: " + hpListS(after)})
+	// C04b, delete path: deleteFilteredData rejects because of an unwritable element the selector does not match
+	w = &hpWrite{remote: true, persist: true, fpk: "N", fdk: "F", fds: t.selOf(0)}
+	v, _ = run([][]int{c0, f1}, w)
+	ps = append(ps, hpProbe{name: "deleteStrict", ops: []string{tyOp, hpSet(c0, f1), w.line()}, on: v == hpErr,
+		detail: "verdict of a remote delete whose selector matches only the changeable element: " + hpVerdictS(v)})
+	// C11b: the fast path stores the caller's pointer (the value handed in sees a later re-assignment of the list)
+	{
+		fd := hpNewFD(t.fn)
+		in := t.encList([][]int{c0, f1})
+		hpCall(t, fd, &hpWrite{persist: true, items: [][]int{c0, f1}, fpk: "N", fdk: "N"}, in)
+		w = &hpWrite{persist: true, items: [][]int{c2}, fpk: "E", fdk: "N"}
+		hpCall(t, fd, w, t.encList(w.items))
+		now := t.decAny(in)
+		ps = append(ps, hpProbe{name: "fastpathAdopts", ops: []string{tyOp, hpSet(c0, f1), w.line()}, on: len(now) != 2,
+			detail: "the value handed to a filter-less update reads, after a later identifier-based partial update: " + hpListS(now)})
+	}
 	return ps
 }
 
